@@ -602,7 +602,15 @@ impl Stdfs {
         // Read the source tree before creating anything so that copying a directory into
         // itself doesn't keep discovering what it just created
         let src_root = StdfsEntry::from(&src_root)?.follow(cp.follow);
-        let entries: Vec<RvResult<VfsEntry>> = Stdfs::entries(src_root.path())?.follow(cp.follow).into_iter().collect();
+        let mut entries: Vec<RvResult<VfsEntry>> = Vec::new();
+        for entry in Stdfs::entries(src_root.path())?.follow(cp.follow) {
+            // Nothing after the first error gets copied so there is no point reading any further
+            let failed = entry.is_err();
+            entries.push(entry);
+            if failed {
+                break;
+            }
+        }
         for entry in entries {
             let src = entry?;
 
